@@ -27,7 +27,7 @@ Definition key := nat.
 Inductive tab :=
 | T_FIELDS      (* class_helper.FIELDS *)
 | T_DEFREG      (* class_helper.FIELD_TO_DEFAULT : cls -> dict (registration of the inner dict) *)
-| T_DEFAULTS    (* the inner dict FIELD_TO_DEFAULT[cls] : field -> default *)
+| T_DEFAULTS (owner : nat)  (* the inner dict created by thread `owner` for FIELD_TO_DEFAULT[cls] : field -> default *)
 | T_LOADFUNC    (* CLASS_TO_LOAD_FUNC *)
 | T_DUMPFUNC    (* CLASS_TO_DUMP_FUNC *)
 | T_LOADER      (* CLASS_TO_LOADER *)
@@ -49,12 +49,13 @@ Inductive tab :=
 
 Definition tab_eqb (a b : tab) : bool :=
   match a, b with
-  | T_FIELDS, T_FIELDS | T_DEFREG, T_DEFREG | T_DEFAULTS, T_DEFAULTS | T_LOADFUNC, T_LOADFUNC
+  | T_FIELDS, T_FIELDS | T_DEFREG, T_DEFREG | T_LOADFUNC, T_LOADFUNC
   | T_DUMPFUNC, T_DUMPFUNC | T_LOADER, T_LOADER | T_DUMPER, T_DUMPER | T_PARSERS, T_PARSERS
   | T_DUMPFLAG, T_DUMPFLAG | T_JSON2F, T_JSON2F | T_PATH, T_PATH | T_ALIAS, T_ALIAS | T_ATTR, T_ATTR
   | T_ENVIRON, T_ENVIRON | T_VARNAMES, T_VARNAMES | T_CLEANED, T_CLEANED | T_ACCESSED, T_ACCESSED
   | T_OBJ, T_OBJ | T_V1ALIAS, T_V1ALIAS | T_V1FLAG, T_V1FLAG => true
   | T_HOOKS o1, T_HOOKS o2 => Nat.eqb o1 o2
+  | T_DEFAULTS o1, T_DEFAULTS o2 => Nat.eqb o1 o2
   | _, _ => false
   end.
 
@@ -347,21 +348,27 @@ Definition p_fields (c : prog) : prog :=
     | None => Yield Y_fields_miss (Wr T_FIELDS 0 VU (Rd T_FIELDS 0 (fun r2 => need r2 (fun _ => c))))
     end).
 
-(* dataclass_field_to_default(cls): the inner dict is REGISTERED EMPTY, then filled *)
-Definition p_defaults (fx : fixes) (cd : cdesc) (c : prog) : prog :=
+(* dataclass_field_to_default(cls): a NEW inner dict is REGISTERED EMPTY, then filled through the
+   local reference; `return FIELD_TO_DEFAULT[cls]` re-reads the registration, which another thread
+   may have replaced by its own (still empty) dict.  Returns the owner of the dict it hands out. *)
+Definition p_defaults (fx : fixes) (tid : nat) (cd : cdesc) (c : nat -> prog) : prog :=
+  let ret := Rd T_DEFREG 0 (fun r2 => match r2 with
+                                      | Some (VN o) => c o
+                                      | Some _ => Ret [OErr ETypeError]
+                                      | None => Ret [OErr EKeyError]
+                                      end) in
   Rd T_DEFREG 0 (fun r =>
     match r with
-    | Some _ => Rd T_DEFREG 0 (fun r2 => need r2 (fun _ => c))
+    | Some _ => ret
     | None =>
         let fill (k : prog) :=
           Yield Y_defaults_registered
             (p_fields (for_fields (cd_fields cd) 0
-               (fun i f k => Yield Y_defaults_fill (if fd_dflt f then Wr T_DEFAULTS i VU k else k)) k)) in
-        let ret := Rd T_DEFREG 0 (fun r2 => need r2 (fun _ => c)) in
+               (fun i f k => Yield Y_defaults_fill (if fd_dflt f then Wr (T_DEFAULTS tid) i VU k else k)) k)) in
         Yield Y_defaults_miss
           (if fx32 fx
-           then fill (Wr T_DEFREG 0 VU ret)          (* repaired: filled, THEN published *)
-           else Wr T_DEFREG 0 VU (fill ret))         (* pinned: registered empty, then filled *)
+           then fill (Wr T_DEFREG 0 (VN tid) ret)          (* repaired: filled, THEN published *)
+           else Wr T_DEFREG 0 (VN tid) (fill ret))         (* pinned: registered empty, then filled *)
     end).
 
 (* get_loader(cls) *)
@@ -467,7 +474,7 @@ Definition gen_load (fx : fixes) (tid : nat) (cd : cdesc) (ks : list kspec) : pr
            Yield Y_load_setattr (p_setattr cd 0 (Yield Y_load_store
              (Wr T_LOADFUNC 0 (VL d) (run_load_fn cd d ks)))) in
          if Nat.eqb num_paths 0 then finish [1]
-         else p_fields (p_defaults fx cd (ItBegin T_PATH
+         else p_fields (p_defaults fx tid cd (fun _ => ItBegin T_PATH
                 (it_collect (Datatypes.S (Datatypes.S (List.length (cd_fields cd)))) []
                    (fun snap => finish ((if Nat.eqb num_paths (List.length (cd_fields cd)) then 0 else 1) :: snap))))))))))).
 
@@ -550,28 +557,28 @@ Definition run_dump_fn (fx : fixes) (cd : cdesc) (d : list nat) (vals : list vty
   end.
 
 (* the per-field part of dump_func_for_dataclass *)
-Fixpoint gen_dump_fields (fs : list fdesc) (i : nat) (skip : list nat) (c : list nat -> prog) : prog :=
+Fixpoint gen_dump_fields (dd : nat) (fs : list fdesc) (i : nat) (skip : list nat) (c : list nat -> prog) : prog :=
   match fs with
   | [] => c (rev skip)
   | f :: r =>
-      Rd T_DEFAULTS i (fun dv =>
+      Rd (T_DEFAULTS dd) i (fun dv =>
         let skip' := match dv with Some _ => i :: skip | None => skip end in
         Rd T_ALIAS i (fun a =>
           match a with
-          | None => Wr T_ALIAS i (VN (100 + i)) (gen_dump_fields r (Datatypes.S i) skip' c)
+          | None => Wr T_ALIAS i (VN (100 + i)) (gen_dump_fields dd r (Datatypes.S i) skip' c)
           | Some av =>
               match av with
-              | VL [] => Rd T_PATH i (fun p => need p (fun _ => gen_dump_fields r (Datatypes.S i) skip' c))
-              | _ => gen_dump_fields r (Datatypes.S i) skip' c
+              | VL [] => Rd T_PATH i (fun p => need p (fun _ => gen_dump_fields dd r (Datatypes.S i) skip' c))
+              | _ => gen_dump_fields dd r (Datatypes.S i) skip' c
               end
           end))
   end.
 
 Definition gen_dump (fx : fixes) (tid : nat) (cd : cdesc) (vals : list vty) : prog :=
   Yield Y_dump_gen (p_dumper tid (fun o =>
-    p_dump_cfg fx cd (Yield Y_dump_cfg_done (p_defaults fx cd (p_fields
+    p_dump_cfg fx cd (Yield Y_dump_cfg_done (p_defaults fx tid cd (fun dd => p_fields
       (Rd T_ALIAS K_CATCH_ALL (fun _ => Size T_PATH (fun _ =>
-         gen_dump_fields (cd_fields cd) 0 [] (fun skip =>
+         gen_dump_fields dd (cd_fields cd) 0 [] (fun skip =>
            Yield Y_dump_setattr (p_setattr cd 1 (Yield Y_dump_store
              (Wr T_DUMPFUNC 0 (VL (o :: skip)) (run_dump_fn fx cd (o :: skip) vals))))))))))))).
 
